@@ -33,7 +33,17 @@ func keys(x *mon.Ctx) {
 		// ecdh
 		var k *ecdh.PrivateKey
 		var err error
-		if c.Call("ecdh.NewPrivateKey", func() { k, err = ecdh.P256().NewPrivateKey(in) }) {
+		okE := c.Call("ecdh.NewPrivateKey", func() { k, err = ecdh.P256().NewPrivateKey(in) })
+		// the constructor leaves the caller's slice alone, and the key object owns its scalar: the slice is overwritten
+		// before the object is looked at
+		if string(in) != string(b) {
+			c.Fail("mismatch", "ecdh.NewPrivateKey modified its input %x -> %x", b, in)
+		}
+		for i := range in {
+			in[i] = 0xA5
+		}
+		in = append([]byte{}, b...)
+		if okE {
 			switch {
 			case isNm1:
 				c.Event("ecdh_n-1_accepted", b2i(err == nil))
@@ -56,7 +66,15 @@ func keys(x *mon.Ctx) {
 		}
 		// sm2
 		var sk *sm2.PrivateKey
-		if c.Call("sm2.NewPrivateKey", func() { sk, err = sm2.NewPrivateKey(in) }) {
+		okS := c.Call("sm2.NewPrivateKey", func() { sk, err = sm2.NewPrivateKey(in) })
+		if string(in) != string(b) {
+			c.Fail("mismatch", "sm2.NewPrivateKey modified its input %x -> %x", b, in)
+		}
+		for i := range in {
+			in[i] = 0xA5
+		}
+		in = append([]byte{}, b...)
+		if okS {
 			switch {
 			case err == nil && !inRange:
 				c.Fail("accept", "sm2.NewPrivateKey accepted %x (len %d), not a 32-byte scalar in [1, n-2]", b, len(b))
@@ -149,7 +167,14 @@ func keys(x *mon.Ctx) {
 		if !c.Call("ecdh keys", func() {
 			k, err = ecdh.P256().NewPrivateKey(db)
 			if err == nil {
-				pk, err = ecdh.P256().NewPublicKey(q.p.Marshal())
+				qb := q.p.Marshal()
+				pk, err = ecdh.P256().NewPublicKey(qb)
+				for i := range qb {
+					qb[i] = 0xA5 // both key objects own their bytes
+				}
+			}
+			for i := range db {
+				db[i] = 0xA5
 			}
 		}) {
 			return
